@@ -18,6 +18,8 @@ g("PUSHV_POPV", ["PushSymbol", "PopSymbol"], unwind=18, defs_extra=["-DVERIF_PUS
   bounded="one symbol, the default stack, two nested PUSHV")
 g("ChkTmp2", ["ChkTmp2", "AddTmpSymLog"], unwind=50, defs_extra=["-DVERIF_TMPSYM"], drop_unused=True, cflags=["-include", "$VERIF/include/verif_ascii_ctype.h"],
   bounded="names of 0..5 characters over '-', '+', '/', blank and a letter; counters and log arbitrary")
+g("ChkTmp13", ["ChkTmp", "ChkTmp1", "ChkTmp3"], unwind=20, defs_extra=["-DVERIF_TMPSYM"], drop_unused=True, cflags=["-include", "$VERIF/include/verif_ascii_ctype.h"],
+  bounded="names of 0..4 characters over '$', '.', 'a', 'b'; last non-temporary label of 0..2 characters; SHA-1 replaced by a stand-in that depends on the hashed text only")
 for f in ("strmaxprep2", "strmaxprep"):
     GROUPS.append(G("str_" + f, "harness/C13/h_strutil.c", "h_" + f, enforce=[], link=[], stubs=["stubs/gerr.c"], unwind=26, timeout=600, dfcc=False, drop_unused=True, object_bits=12,
                     functions=[f], bounded="destination buffer of 1..8 bytes, prepended string of 0..9 characters"))
@@ -26,7 +28,7 @@ GROUPS.append(G("sym_CodePPSyms", "harness/C10/h_asmallg.c", "h_CodePPSyms", enf
                 bounded="argument list of three names (first and third optionally section-qualified), empty FORWARD/PUBLIC/GLOBAL lists"))
 TRUSTED_BASE = ["message/file-name stubs", "FreeRelocs stub (no relocations)"]
 ASSUMPTIONS = ["integer or float values (string constants compared by as_nonz_dynstr_cmp are not explored)", "JmpErrors <= ErrorCount (established by WrXErrorPos, see C02)"]
-NOT_COVERED = ["balanced tree (trees.c)", "GetSymSection qualifier splitting ([..] parsing)", "CodeSECTION / ENDSECTION (section stack construction)", "named temporary symbols ($$: ChkTmp1, SHA1 suffix)", "case folding (-U)"]
+NOT_COVERED = ["balanced tree (trees.c)", "GetSymSection qualifier splitting ([..] parsing)", "CodeSECTION / ENDSECTION (section stack construction)", "SHA-1 itself (the $$ suffix is verified to depend on the last non-temporary label only, through a stand-in digest)", "case folding (-U)"]
 EXPLANATION = ("Kernel only: SymbolAdder decides constant vs variable vs redefinition and when another pass is requested; the section walk and "
                "temporary-symbol counters follow; the run-level statement (every reference resolves as the manual prescribes) is an induction "
                "over these per-call facts and the unverified tree/section code.")
@@ -37,6 +39,6 @@ MANIFEST = dict(
          "and variable cannot change kind; a variable is replaced; usage carried), FindNode (innermost enclosing section first, then outward to "
          "global, wrong-kind entries do not hide outer ones, FORWARD names stay local in early passes) and LookupSymbol (value, used flag, "
          "forward/questionable flags). Also PushSymbol/PopSymbol (PUSHV/POPV: last in, first out, empty stack is an error), IdentifySection (name[], PARENTn, section names), CodePPSyms (PUBLIC/GLOBAL/FORWARD lists: each argument its own destination section) ExpandStrSymbol (bounded), the nameless temporary symbols (ChkTmp2/AddTmpSymLog: -, --, --- name the three last minus symbols, +, ++, +++ the next plus symbols, / counts as both) and the string helpers that build composed names (strmaxprep/strmaxprep2, bounded). The symbol tree itself is an oracle; "
-         "[..] splitting, named ($$) temporary symbols and case folding are named unverified.",
+         "Named ($$x) and composed (.x) temporary symbols (ChkTmp1/ChkTmp3: private to the stretch between two non-temporary labels). [..] splitting and case folding are named unverified.",
     note="Bounded: section nesting depth <= 2, one fixed plain name. Trusted: SearchTree oracle, message stubs, no relocations.",
 )
